@@ -339,6 +339,9 @@ func (cc *Conn) NetConn() net.Conn {
 
 // DoObserve subscribes for every change with request.
 func (cc *Conn) doObserve(req *pool.Message, observeFunc func(req *pool.Message)) (client.Observation, error) {
+	// NewObservation waits for the first notification: hand the loop that reads received messages over first
+	// (as doInternal does), so that an observation can be registered from a handler.
+	cc.receivedMessageReader.TryToReplaceLoop()
 	return cc.observationHandler.NewObservation(req, observeFunc)
 }
 
